@@ -240,7 +240,7 @@ def implLabels [DecidableEq μ] (W : Wrapped μ σ) (kind : Kind) (st : World μ
     | none => some [Label.deliver p]
     | some r =>
       if isNoOp r && kind != Kind.ordered then none
-      else if kind = Kind.dup then some [Label.deliver p]
+      else if kind = Kind.dup then some [Label.dup p, Label.deliver p]
       else some [Label.deliver p]
 
 /-- does the handler reach a `todo!()`? -/
